@@ -162,6 +162,11 @@ def run(run, ix, tier):
     run.rule('D-R8', floor=1, desc='the cache that gates a multi-part lookup is replaced last')
     run.rule('D-R1f', floor=4, desc='values stored in a precision-keyed cache are computed at the key\'s precision')
 
+    run.rule('D-R1g', floor=1, desc='quantities derived from the key variable are current with the key at the store')
+    run.rule('D-LU2', floor=2, desc='cached LU factors are not aliased to a caller')
+    run.rule('D-R6h', floor=1, desc='a memoize hit cannot fail where the miss succeeded')
+    run.rule('D-R9', floor=3, desc='invertlaplace working data lives on a call-local rule object')
+
     rows = table_index(ix)
     found = discover(ix)
     run.stats['containers_discovered'] = sorted('%s:%s:%s' % (r, q, c) for k, r, q, c in found)
@@ -197,6 +202,9 @@ def run(run, ix, tier):
     check_memoize_key(run, ix)
     check_rs(run, ix)
     check_keyed_store_precision(run, ix)
+    check_derived_with_key(run, ix)
+    check_memoize_hit(run, ix)
+    check_call_local_rules(run, ix)
     check_partial_stores(run, ix)
     check_gate_last(run, ix)
     # the odefun segment cache (append-only lists, in-range lookup, extension test): rules of the
@@ -748,10 +756,28 @@ def check_lu(run, ix):
     rel = 'mpmath/matrices/linalg.py'
     f = ix.func(rel, 'LinearAlgebraMethods.LU_decomp')
     derived = prec_derived_names(f)
+    # names bound from the cached pair (LU, p = A._LU)
+    cached_names = set()
+    unpack_blocks = []
+    for x in _walk_own(f.node):
+        if isinstance(x, ast.Assign) and isinstance(x.value, ast.Attribute) and x.value.attr == '_LU':
+            unpack_blocks.append(x._parent)
+            for t in x.targets:
+                for n in ast.walk(t):
+                    if isinstance(n, ast.Name):
+                        cached_names.add(n.id)
+
+    def from_cache(r):
+        if any(isinstance(n, ast.Attribute) and n.attr == '_LU' for n in ast.walk(r.value)):
+            return True
+        # the names unpacked from the cached pair, inside the block that unpacked them
+        return any(isinstance(n, ast.Name) and n.id in cached_names for n in ast.walk(r.value)) and \
+            any(a in unpack_blocks for a in ancestors(r))
     hits = [r for r in _walk_own(f.node) if isinstance(r, ast.Return) and r.value is not None
-            and isinstance(r.value, ast.Attribute) and r.value.attr == '_LU']
+            and from_cache(r)]
     if not hits:
         raise AnalysisError('LU_decomp: cache hit return not found')
+    check_lu_aliasing(run, f, hits, cached_names)
 
     def is_tag(e):
         return isinstance(e, ast.Attribute) and e.attr.startswith('_LU') and e.attr != '_LU'
@@ -805,6 +831,51 @@ def check_lu(run, ix):
         else:
             run.fail(Finding('D-LU', rel, f.qualname, norm(st),
                              'LU factors are cached without recording the precision', line=st.lineno))
+
+
+def _is_copy(e):
+    """`x.copy()`, `x[:]`, `list(x)`: a new object with the contents of x."""
+    if isinstance(e, ast.Call) and isinstance(e.func, ast.Attribute) and e.func.attr in ('copy', '__copy__'):
+        return True
+    if isinstance(e, ast.Call) and isinstance(e.func, ast.Name) and e.func.id in ('list', 'tuple') and e.args:
+        return True
+    if isinstance(e, ast.Subscript) and isinstance(e.slice, ast.Slice) and e.slice.lower is None and \
+            e.slice.upper is None:
+        return True
+    return False
+
+
+def check_lu_aliasing(run, f, hits, cached_names):
+    """D-LU2: the factor objects held in the cache are never handed to a caller.  LU_decomp is public and its
+    result is mutable (a matrix and a list): a caller that writes into what it was given (splitting LU into L
+    and U in place) would otherwise change what lu(), lu_solve() and LU_decomp() compute for the unchanged
+    matrix afterwards.  Decided: (a) every component returned on the hit path is a copy expression; (b) no
+    object stored in `_LU` is also returned by a plain name."""
+    for r in hits:
+        comps = r.value.elts if isinstance(r.value, ast.Tuple) else [r.value]
+        bad = [c for c in comps if not _is_copy(c)]
+        if bad:
+            run.fail(Finding('D-LU2', f.file, f.qualname, norm(r),
+                             'the cache hit returns the cached object itself (`%s`): a caller that modifies its '
+                             'result changes the factors served for the unchanged matrix afterwards'
+                             % norm(bad[0], 40), line=r.lineno))
+        else:
+            run.ok('D-LU2', 'hit path returns copies: `%s`' % norm(r, 60))
+    returned = set()
+    for r in _walk_own(f.node):
+        if isinstance(r, ast.Return) and r.value is not None and r not in hits:
+            comps = r.value.elts if isinstance(r.value, ast.Tuple) else [r.value]
+            returned |= set(c.id for c in comps if isinstance(c, ast.Name))
+    for x in _walk_own(f.node):
+        if isinstance(x, ast.Assign) and any(isinstance(t, ast.Attribute) and t.attr == '_LU' for t in x.targets):
+            comps = x.value.elts if isinstance(x.value, ast.Tuple) else [x.value]
+            shared = [c.id for c in comps if isinstance(c, ast.Name) and c.id in returned]
+            if shared:
+                run.fail(Finding('D-LU2', f.file, f.qualname, norm(x),
+                                 'the object `%s` is stored in the cache AND returned to the caller: writing into '
+                                 'the result changes the cached factors' % shared[0], line=x.lineno))
+            else:
+                run.ok('D-LU2', 'stored factors are not the returned objects: `%s`' % norm(x, 60))
 
 
 class LUState(FlowAnalysis):
@@ -1070,6 +1141,178 @@ def check_memoize_key(run, ix):
                          line=keyassigns[0].lineno))
     else:
         run.ok('D-R6', 'memoize key = (args, tuple(kwargs.items()))')
+
+
+def check_memoize_hit(run, ix):
+    """D-R6h: a memoize hit gives what the miss gave.  Whatever the hit path applies to the cached value beyond
+    returning it (the unary plus that rounds a number to the current precision) must not be able to fail for a
+    value the miss path returned happily: an operation on the cached value is accepted only inside a `try`
+    whose TypeError handler returns the cached value unchanged."""
+    f = ix.func('mpmath/ctx_base.py', 'StandardBaseContext.memoize.f_cached')
+    cached = set()
+    for x in _walk_own(f.node):
+        if isinstance(x, ast.Assign) and isinstance(x.value, ast.Subscript) and norm(x.value.value) == 'f_cache':
+            for t in x.targets:
+                for n in ast.walk(t):
+                    if isinstance(n, ast.Name):
+                        cached.add(n.id)
+    rets = [r for r in _walk_own(f.node) if isinstance(r, ast.Return) and r.value is not None and
+            any(isinstance(n, ast.Name) and n.id in cached for n in ast.walk(r.value))]
+    if not rets:
+        raise AnalysisError('memoize: hit return not found')
+    for r in rets:
+        if isinstance(r.value, ast.Name):
+            run.ok('D-R6h', 'hit returns the cached value as it is: `%s`' % norm(r))
+            continue
+        guarded = False
+        for a in ancestors(r):
+            if isinstance(a, ast.Try) and r in [n for s in a.body for n in ast.walk(s)]:
+                for h in a.handlers:
+                    names = [n.id for n in ast.walk(h.type) if isinstance(n, ast.Name)] \
+                        if h.type is not None else ['BaseException']
+                    if set(names) & {'TypeError', 'Exception', 'BaseException'} and \
+                            any(isinstance(x, ast.Return) and isinstance(x.value, ast.Name) and x.value.id in cached
+                                for s in h.body for x in ast.walk(s)):
+                        guarded = True
+        if guarded:
+            run.ok('D-R6h', 'operation on the cached value falls back to the value itself: `%s`' % norm(r))
+        else:
+            run.fail(Finding('D-R6h', f.file, f.qualname, norm(r),
+                             'the hit path applies `%s` to the cached value with no fallback: for a function whose '
+                             'value is not a number (a tuple of results) the second identical call raises '
+                             'TypeError where the first returned' % norm(r.value, 30), line=r.lineno))
+
+
+def check_derived_with_key(run, ix):
+    """D-R1g: what is stored under a precision key was sized for THAT key.  In the function that fills a keyed
+    cache, a quantity derived from the key variable (a number of terms, a working precision) that flows into
+    the stored value must be recomputed after every later reassignment of the key variable that reaches the
+    store; otherwise the entry is filed under a precision it was not built for and later requests up to that
+    precision are served too few terms."""
+    for row in tables.CACHES:
+        if row['kind'] != 'keyed':
+            continue
+        f = ix.func(row['file'], row['func'])
+        cname = row['container']
+        own = list(_walk_own(f.node))
+        for st in own:
+            if not (isinstance(st, ast.Assign) and len(st.targets) == 1 and
+                    isinstance(st.targets[0], ast.Subscript) and norm(st.targets[0].value) == cname):
+                continue
+            keyexpr = st.targets[0].slice
+            keys = [n.id for n in ast.walk(keyexpr) if isinstance(n, ast.Name)]
+            for K in keys:
+                kdefs = [x for x in own if isinstance(x, (ast.Assign, ast.AugAssign)) and
+                         any(isinstance(t, ast.Name) and t.id == K
+                             for t in (x.targets if isinstance(x, ast.Assign) else [x.target]))
+                         and x.lineno < st.lineno]
+                if not kdefs:
+                    continue
+                # names flowing into the stored value (data and control dependence)
+                flow = set()
+                todo = [n.id for n in ast.walk(st.value) if isinstance(n, ast.Name)]
+                while todo:
+                    v = todo.pop()
+                    if v in flow:
+                        continue
+                    flow.add(v)
+                    for x in own:
+                        tg = []
+                        if isinstance(x, ast.Assign):
+                            tg = x.targets
+                        elif isinstance(x, ast.AugAssign):
+                            tg = [x.target]
+                        hit = False
+                        for t in tg:
+                            base = t
+                            while isinstance(base, ast.Subscript):
+                                base = base.value
+                            if isinstance(base, ast.Name) and base.id == v:
+                                hit = True
+                        if not hit or x.lineno > st.lineno:
+                            continue
+                        srcs = [x.value]
+                        for a in ancestors(x):
+                            if a is f.node:
+                                break
+                            if isinstance(a, ast.For):
+                                srcs.append(a.iter)
+                            elif isinstance(a, ast.While):
+                                srcs.append(a.test)
+                        for e in srcs:
+                            todo.extend(n.id for n in ast.walk(e) if isinstance(n, ast.Name))
+                for P in sorted(flow - {K}):
+                    pdefs = [x for x in own if isinstance(x, ast.Assign) and
+                             any(isinstance(t, ast.Name) and t.id == P for t in x.targets) and
+                             x.lineno < st.lineno and
+                             any(isinstance(n, ast.Name) and n.id == K for n in ast.walk(x.value))]
+                    if not pdefs:
+                        continue
+                    stale = None
+                    for kd in kdefs:
+                        before = [pd for pd in pdefs if pd.lineno < kd.lineno]
+                        if not before:
+                            continue
+                        # a redefinition of P after kd, in kd's block or an enclosing one
+                        blocks = [kd._parent] + [a for a in ancestors(kd)]
+                        ok = any(pd.lineno > kd.lineno and pd._parent in blocks for pd in pdefs)
+                        if not ok:
+                            stale = kd
+                    if stale is not None:
+                        run.fail(Finding('D-R1g', f.file, f.qualname, norm(stale),
+                                         '`%s` was computed from `%s` before this reassignment and flows into the '
+                                         'value stored as %s[%s]: the entry is filed under a precision it was not '
+                                         'sized for, and a later request up to that precision is served it'
+                                         % (P, K, cname, norm(keyexpr)), line=stale.lineno))
+                    else:
+                        run.ok('D-R1g', '%s: `%s` is current with key `%s` at `%s`'
+                               % (f.qualname, P, K, norm(st, 50)))
+
+
+def check_call_local_rules(run, ix):
+    """D-R9: the working data of one invertlaplace call lives on an object of that call.  The rule classes store
+    the abscissas, weights, degree and the saved precision on `self` in calc_laplace_parameter; the transform f
+    is user code that may call invertlaplace again (a coefficient defined by another inverse transform), so an
+    object shared between calls is overwritten under the outer call.  Decided: every object whose
+    calc_laplace_parameter is invoked by invertlaplace is constructed in that call."""
+    rel = 'mpmath/calculus/inverselaplace.py'
+    f = ix.func(rel, 'LaplaceTransformInversionMethods.invertlaplace')
+    mod = ix.modules[rel]
+    stateful = set()
+    for c in mod.tree.body:
+        if isinstance(c, ast.ClassDef):
+            for m in c.body:
+                if isinstance(m, ast.FunctionDef) and m.name == 'calc_laplace_parameter' and \
+                        any(isinstance(x, (ast.Assign, ast.AugAssign)) and
+                            any(isinstance(t, ast.Attribute) and norm(t.value) == 'self'
+                                for t in (x.targets if isinstance(x, ast.Assign) else [x.target]))
+                            for x in ast.walk(m)):
+                    stateful.add(c.name)
+    if len(stateful) < 3:
+        raise AnalysisError('inverselaplace: stateful rule classes not found')
+    users = [x for x in _walk_own(f.node) if isinstance(x, ast.Call) and isinstance(x.func, ast.Attribute)
+             and x.func.attr == 'calc_laplace_parameter' and isinstance(x.func.value, ast.Name)]
+    if not users:
+        raise AnalysisError('invertlaplace: calc_laplace_parameter call not found')
+    var = users[0].func.value.id
+    n = 0
+    for x in _walk_own(f.node):
+        if isinstance(x, ast.Assign) and any(isinstance(t, ast.Name) and t.id == var for t in x.targets):
+            v = x.value
+            if isinstance(v, ast.Call) and isinstance(v.func, ast.Attribute) and v.func.attr == 'get' and \
+                    norm(v.func.value) == (f.kwarg or 'kwargs'):
+                continue                       # the method specification, dispatched below
+            n += 1
+            if isinstance(v, ast.Call) and isinstance(v.func, ast.Name) and \
+                    (v.func.id in stateful or v.func.id == var):
+                run.ok('D-R9', 'rule object constructed in the call: `%s`' % norm(x))
+            else:
+                run.fail(Finding('D-R9', rel, f.qualname, norm(x),
+                                 'the rule object `%s` outlives the call, but holds its working data (abscissas, '
+                                 'weights, saved precision): a transform that itself calls invertlaplace overwrites '
+                                 'them under the outer call' % norm(v, 40), line=x.lineno))
+    if not n:
+        raise AnalysisError('invertlaplace: rule selection not found')
 
 
 def check_rs(run, ix):
